@@ -71,7 +71,9 @@ def some_type(tag, depth):
         return leaf_type(k)
     k -= N_LEAF
     if k == 0:
-        return tys.FunctionType(row(tag + ".in", depth - 1), row(tag + ".out", depth - 1), [S("fn.req")])
+        i_row, o_row = row(tag + ".in", depth - 1), row(tag + ".out", depth - 1)
+        # requirement list: one symbolic name, or (for the function type without inputs and outputs) three concrete names, out of order, one repeated
+        return tys.FunctionType(i_row, o_row, [S("fn.req")] if (i_row or o_row) else ["zz.ext", "aa.ext", "zz.ext"])
     if k == 1:
         return tys.Sum([row(tag + f".v{j}", depth - 1) for j in range(sym.concretize(sym.int(_fresh(tag + ".nv"), 0, 2)))])
     if k == 2:
@@ -84,6 +86,11 @@ def some_type(tag, depth):
 def row(tag, depth, maxlen=None):
     n = sym.concretize(sym.int(_fresh(tag + ".len"), 0, maxlen if maxlen is not None else P(1, 2)))
     return [some_type(f"{tag}{i}", depth) for i in range(n)]
+
+
+def _delta():
+    """An extension delta: one symbolic name, or three concrete names out of order with a repeat."""
+    return [S("delta")] if sym.concretize(sym.bool(_fresh("delta.symbolic"))) else ["zz.ext", "aa.ext", "zz.ext"]
 
 
 def atom_row(tag, maxlen=2):
@@ -279,14 +286,14 @@ def make_op(kind):
         return ops.Const(some_value("c", 1))
     if kind == "DataflowBlock":
         rows = [atom_row(f"v{j}", 1) for j in range(sym.concretize(sym.int("nv", 0, 2)))]
-        return ops.DataflowBlock(atom_row("i"), tys.Sum(rows), atom_row("x", 1), [S("delta")])
+        return ops.DataflowBlock(atom_row("i"), tys.Sum(rows), atom_row("x", 1), _delta())
     if kind == "ExitBlock":
         return ops.ExitBlock(atom_row("o"))
     if kind == "Conditional":
         rows = [atom_row(f"v{j}", 1) for j in range(sym.concretize(sym.int("nv", 0, 2)))]
         return ops.Conditional(tys.Sum(rows), atom_row("x", 1), atom_row("o", 1))
     if kind == "TailLoop":
-        return ops.TailLoop(atom_row("ji", 1), atom_row("r", 1), atom_row("jo", 1), [S("delta")])
+        return ops.TailLoop(atom_row("ji", 1), atom_row("r", 1), atom_row("jo", 1), _delta())
     if kind == "CFG":
         return ops.CFG(atom_row("i"), atom_row("o"))
     if kind == "Input":
@@ -310,7 +317,7 @@ def make_op(kind):
         rows = [atom_row(f"v{j}", 1) for j in range(sym.concretize(sym.int("nv", 1, 3)))]
         return ops.Tag(I("tag", 0, len(rows) - 1), tys.Sum(rows))
     if kind == "DFG":
-        return ops.DFG(atom_row("i"), atom_row("o"), [S("delta")])
+        return ops.DFG(atom_row("i"), atom_row("o"), _delta())
     if kind == "AliasDecl":
         return ops.AliasDecl(S("alias"), Bd("bound"))
     if kind == "AliasDefn":
